@@ -223,17 +223,18 @@ def rule_d(ctx):
     ctx.rule(rid, "copy-on-write publish: the new snapshot is handed to the publishing call by value; the pointer is changed only by the swap; "
                   "no DerefMut on a guard type", floor=4)
     R = Roles(F)
-    stores = [i for i in F.inst if i.local and i.body is not None and re.match(r"^signal_hook_registry::half_lock::WriteGuard::<'_, .*>::store$", i.name)]
-    for st in stores:
-        callers = F.callers().get(st.id, [])
-        for (cid, k, bb) in callers:
-            ci = F.inst[cid]
-            if ci.body is None or k != "call":
+    from .pub import publish_sites, is_forwarder
+    for ci in F.inst:
+        if ci.body is None or not ci.local or ci.crate != "signal_hook_registry":
+            continue
+        for T in (DATA_T, "core::option::Option<signal_hook_registry::Prev>"):
+            if is_forwarder(F, ci, T):
                 continue
-            a = ci.term(bb)["args"][1]
-            byval = a["k"] in ("move",) and not a["p"]["p"]
-            ctx.check(byval, rid, "publish-by-value@%s" % keyname(ci.name), "the snapshot is moved into the publishing call (cannot be touched afterwards)",
-                      ci.term(bb)["sp"], a)
+            for bb, t, gi, vi in publish_sites(F, ci, T):
+                a = t["args"][vi]
+                byval = a["k"] in ("move",) and not a["p"]["p"]
+                ctx.check(byval, rid, "publish-by-value@%s" % keyname(ci.name), "the snapshot is moved into the publishing call (cannot be touched afterwards)",
+                          t["sp"], a)
     writes = []
     for i in F.inst:
         if i.body is None or not i.local or i.crate != "signal_hook_registry":
@@ -259,14 +260,15 @@ def rule_e(ctx):
     for m in F.inst:
         if m.body is None or not m.local or m.crate != "signal_hook_registry":
             continue
-        for bb, t in m.calls():
-            if t.get("f") is None or F.inst[t["f"]].name != "signal_hook_registry::half_lock::WriteGuard::<'_, %s>::store" % DATA_T:
-                continue
+        from .pub import publish_sites, is_forwarder
+        if is_forwarder(F, m, DATA_T):
+            continue        # a pure forwarding helper: its callers are the publish sites
+        for bb, t, gi, vi in publish_sites(F, m, DATA_T):
             n += 1
             ctx.fn(m)
-            g = deps(m, flow(m).term_arg(bb, 0))
+            g = deps(m, flow(m).term_arg(bb, gi))
             writes = {x[1] for x in g if x[0] == "call" and (m.term(x[1]).get("def") or "").endswith("HalfLock::<T>::write")}
-            v = deps(m, flow(m).term_arg(bb, 1))
+            v = deps(m, flow(m).term_arg(bb, vi))
             clones = [x[1] for x in v if x[0] == "call" and (m.term(x[1]).get("def") or "").endswith("Clone::clone") and DATA_T in "".join(m.term(x[1]).get("targs") or [])]
             okk = False; src = []
             for c in clones:
